@@ -159,6 +159,33 @@ func c07(r *Run) {
 		r.ob("C07.R1:size-reset-on-exit", "waitRead resets waitReadSize to 0 when it returns (deferred)", waitRead, nil, has, "defer Store(waitReadSize,0)", false)
 	}
 
+	// the poller side of the pair: publish the new length, then read waitReadSize (C06.R3), and trigger when enough
+	r.borrow([]string{"C06.R3:publish-before-waitsize"}, "C06.R3", "C07.R1", func() { c06(r) })
+	{
+		inputAck := w.MustFn("(*connection).inputAck")
+		isWRS := func(v ssa.Value) bool {
+			v = stripConv(v)
+			c, ok := v.(*ssa.Call)
+			if !ok {
+				return false
+			}
+			a := asAtomic(c)
+			return a != nil && a.Op == "Load" && structFieldOfAddr(a.Addr) == "connection.waitReadSize"
+		}
+		enough := cmpAtom(func(v ssa.Value) bool { _, c := v.(*ssa.Const); return !c && !isWRS(v) }, isWRS, func(op token.Token) (bool, bool) {
+			switch op {
+			case token.GEQ:
+				return true, true
+			case token.LSS:
+				return false, true
+			}
+			return false, false
+		})
+		starts := edgesEstablishing(inputAck, enough)
+		r.mustPass("C07.R1:poller-triggers-when-enough", "when the delivery made the buffered length reach the size a reader waits for, the poller sends the wake-up on every path", inputAck, nil, starts,
+			func(i ssa.Instruction) bool { return isCall(i, ro.triggerRead) }, nil, nil, "triggerRead(nil) on every path from length >= waitReadSize")
+	}
+
 	// ---- R2 check-before-block and the error mapping ---------------------------------------------
 	statusCall := isCallOf(ro.status, ro.kClosing)
 	isNone := cmpAtom(statusCall, isConstEq(ro.whoNone), eqRel)
